@@ -27,7 +27,7 @@ BUDGET = {
 
 
 def strategy(tier):
-  return st.fixed_dictionaries({'config': lb_config(), 'ops': lb_ops()})
+  return st.fixed_dictionaries({'config': lb_config(), 'ops': lb_ops(100 if tier == 'quick' else 250)})
 
 
 def execute(plan):
